@@ -268,7 +268,7 @@ NOT_APPLICABLE = {
 LATER_RULES = {
     "C01": "R01c placeholder emission never depends on the indent switch; R01d a split element is cut where the previous piece ended.",
     "C02": "R02b an unmatched remainder is empty, non-code or wrapped as unparsable; R02e(3) an unparsable section starts at the first code token after the matched part. R02f every parsed variant pairs a templated file with the tree lexed and parsed from that same file.",
-    "C03": "R03d a node's position is the hull of all its children; R03e buffered metas are emitted in grammar order.",
+    "C03": "R03f Sequence.match buffers every Conditional/Indent element unconditionally (meta arms first, straight-line, continue). R03d a node's position is the hull of all its children; R03e buffered metas are emitted in grammar order.",
     "C04": "R04f no next() without default / R04g no mis-sized split unpacking outside the rule packages; R04h a variant's tree is known to exist where it is linted. R04i the python templater slices a string only after rendering accepted it.",
     "C05": "R05d flag forwarding in recursive walks; R05e constant subscripts guarded; R05f no whitespace segment from an empty text; R05g every assert discharged, typing-only or reviewed; R05h no fix with an empty edit. R05i rules that read their memory hand it back; R05j no create fix re-creates an unfiltered span of siblings (metas have no raw).",
     "C07": "R07d per-variant working state; R07e left-strip handling for every opening token; R07f field token rebuilt in format-grammar order; R07g override delta measured on the rendered text; R07h adjusted slices carry the running delta.",
